@@ -474,4 +474,46 @@ PROPS["C03"] = {
     "assumptions": ["H-x509"],
 }
 
+def nt_c02(lhs, impl):
+    f = lhs.split(" ")
+    g = f[f.index("G"):]
+    alg = g[1]
+    param = _hexbytes(g[2]).decode("latin1")
+    bits = ""
+    if alg in ("rsa", "dsa") and param:
+        try:
+            bits = str(int(param, 16).bit_length() % 8)
+        except ValueError:
+            bits = "?"
+    else:
+        bits = param
+    return (f[1], alg, bits, g[3] != "-", impl[:2])
+
+PROPS["C02"] = {
+    "modules": ["WhatIs.Props.C02"],
+    "theorems": ["WhatIs.C02.rsa_size_is_bitlen_fact", "WhatIs.C02.size_is_bitlen", "WhatIs.C02.container_independent",
+                 "WhatIs.C02.bitLen_spec", "WhatIs.C02.byte_rule_witness", "WhatIs.C02.tables_ok", "WhatIs.C02.curve_paths_agree",
+                 "WhatIs.C02.private_not_shown"],
+    "facts": {"keys.rsaSizeFromByteLength": False, "names.curveOidCount": 19},
+    "nontrivial": nt_c02,
+    "rule": "keys written by the harness's own encoders into PKCS#1 public/private, SPKI, PKCS#8, SEC1, traditional DSA (DER and PEM, "
+            "LF/CRLF), OpenSSH public lines, OpenSSH private (plain and bcrypt-encrypted), PuTTY PPK v2/v3 (plain, aes256-cbc with "
+            "Argon2 id/i/d parameters), SSH1 (plain and 3DES): RSA moduli of 53 bit lengths incl. 511/513/1023/1025/2047/2049/"
+            "3071/4095 (thorough: ~400 lengths 256..8192 hitting every residue mod 8), DSA primes of odd lengths, ECDSA "
+            "P-224/256/384/521, Ed25519, Ed448, X25519, X448, comments over printable/UTF-8 strings; ground truth = the generator's "
+            "record; private components are checked not to appear in decimal or hex. distinct non-trivial = distinct (container, "
+            "algorithm, bit length mod 8 or curve, comment?, outcome)",
+    "design_ref": "DESIGN.md §5 C02",
+    "level_text": "Proof: for ALL moduli/primes the displayed size is the bit length in both attribute families (ASN.1 structures and "
+                  "crypto.PublicKey), so the same key reports the same algorithm/size/curve whichever container carries it; the curve OID "
+                  "table is injective and agrees with the Go-name path; the attribute builders take only the public part as input "
+                  "(non-interference by typing). Container decoding and metadata (comment, cipher, KDF parameters and units) are tied by "
+                  "the differential run against the generator's ground truth, not proved.",
+    "level_note": "Trusted: Lean kernel; translator (names, curve OIDs, the BitLen-vs-Size fact); library decoders (encoding/asn1, "
+                  "x/crypto/ssh, putty-go, internal/ssh1) as oracles; OpenPGP keys are covered by C12; certificate SPKI by C03.",
+    "technique": "Lean 4 proof (size = bit length for all n; container independence; table injectivity) + regenerated facts + differential correspondence against generator ground truth",
+    "trusted_base": ["library container decoders (oracles)", "harness encoders for PPK/SSH1/DSA/PKCS#1 (ground truth)"],
+    "assumptions": ["H-asn1, H-ssh: decoded fields are what the container stores"],
+}
+
 NOT_CLAIMED = {}
